@@ -1,6 +1,6 @@
 (* Single extraction file.  Only directives from Coq's own standard library files
    ExtrOcamlBasic and ExtrOcamlZBigInt are used; none of our own. *)
 From Coq Require Import Extraction ExtrOcamlBasic ExtrOcamlZBigInt.
-From PC Require Import Base.Field Base.Result Base.Poly Base.Zp Base.OrdMap Base.Codec Schemes.Artefacts Schemes.KZG10 Schemes.LC Schemes.Marlin Schemes.MarlinLC Schemes.CalcT Schemes.StreamKZG Schemes.PST13 Schemes.Sizes Schemes.MLPC Schemes.Sonic Schemes.Hyrax Schemes.IPA Schemes.Ligero Schemes.PST13H Schemes.DefaultBatch Schemes.IPABatch Schemes.PST13Batch Schemes.SonicLC.
+From PC Require Import Base.Field Base.Result Base.Poly Base.Zp Base.OrdMap Base.Codec Schemes.Artefacts Schemes.KZG10 Schemes.LC Schemes.Marlin Schemes.MarlinLC Schemes.CalcT Schemes.StreamKZG Schemes.PST13 Schemes.Sizes Schemes.MLPC Schemes.Sonic Schemes.Hyrax Schemes.IPA Schemes.Ligero Schemes.PST13H Schemes.DefaultBatch Schemes.IPABatch Schemes.PST13Batch Schemes.SonicLC Schemes.LinCodeList.
 Extraction Language OCaml.
-Separate Extraction Zp.ZpOps KZG10 Poly Result OrdMap LC Marlin MarlinLC CalcT Codec Artefacts StreamKZG PST13 Sizes MLPC Sonic Hyrax IPA Ligero PST13H DefaultBatch IPABatch PST13Batch SonicLC.
+Separate Extraction Zp.ZpOps KZG10 Poly Result OrdMap LC Marlin MarlinLC CalcT Codec Artefacts StreamKZG PST13 Sizes MLPC Sonic Hyrax IPA Ligero PST13H DefaultBatch IPABatch PST13Batch SonicLC LinCodeList.
